@@ -3,6 +3,7 @@ use crate::{show_hex, unhex};
 use curve25519_dalek::constants::EIGHT_TORSION;
 use curve25519_dalek::edwards::CompressedEdwardsY;
 use monero::consensus::encode::{deserialize_partial, serialize};
+use monero::cryptonote::hash::Hashable;
 use monero::cryptonote::onetime_key::KeyGenerator;
 use monero::cryptonote::subaddress::{self, Index};
 use monero::util::address::AddressType;
@@ -55,12 +56,33 @@ macro_rules! pk {
 pub fn run(op: &str, args: &[&str]) -> Option<String> {
     match (op, args) {
         ("sk", [h]) => {
-            let k = sk!(h);
-            let again = PrivateKey::try_from(&k.to_bytes()[..]).ok()?;
-            if again != k || k.as_bytes() != &k.to_bytes()[..] {
-                return Some("OK inconsistent".to_string());
+            // three acceptance routes (from_slice, TryFrom<&[u8]>, TryFrom<[u8; 32]>) and both printing routes
+            let b = unhex(h)?;
+            let r0 = PrivateKey::from_slice(&b).ok();
+            let r1 = PrivateKey::try_from(&b[..]).ok();
+            let r2 = match <[u8; 32]>::try_from(&b[..]) {
+                Ok(a) => PrivateKey::try_from(a).ok(),
+                Err(_) => r0, // no array of another length exists
+            };
+            if r0.is_none() && r1.is_none() && r2.is_none() {
+                return err();
             }
-            Some(format!("OK {} {} {}", show_hex(&k.to_bytes()), k, show_hex(&serialize(&k))))
+            if let Some(k) = r0 {
+                let again = PrivateKey::try_from(&k.to_bytes()[..]).ok()?;
+                if again != k || k.as_bytes() != &k.to_bytes()[..] {
+                    return Some("OK inconsistent".to_string());
+                }
+            }
+            let e = || "err".to_string();
+            Some(format!(
+                "OK {} {} {} {} {} {}",
+                r0.map_or_else(e, |k| show_hex(&k.to_bytes())),
+                r0.map_or_else(e, |k| format!("{}", k)),
+                r0.map_or_else(e, |k| show_hex(&serialize(&k))),
+                r1.map_or_else(e, |k| show_hex(&k.to_bytes())),
+                r2.map_or_else(e, |k| show_hex(&k.to_bytes())),
+                r0.map_or_else(e, |k| k.to_string())
+            ))
         }
         ("sk_str", [h]) => {
             let s = String::from_utf8(unhex(h)?).ok()?;
@@ -74,11 +96,50 @@ pub fn run(op: &str, args: &[&str]) -> Option<String> {
             Err(_) => "ERR".to_string(),
         }),
         ("pk", [h]) => {
-            let k = pk!(h);
-            if k.as_bytes() != &k.to_bytes()[..] {
-                return Some("OK inconsistent".to_string());
+            let b = unhex(h)?;
+            let r0 = PublicKey::from_slice(&b).ok();
+            let r1 = PublicKey::try_from(&b[..]).ok();
+            let r2 = match <[u8; 32]>::try_from(&b[..]) {
+                Ok(a) => PublicKey::try_from(a).ok(),
+                Err(_) => r0,
+            };
+            if r0.is_none() && r1.is_none() && r2.is_none() {
+                return err();
             }
-            Some(format!("OK {} {} {}", show_hex(&k.to_bytes()), k, show_hex(&serialize(&k))))
+            if let Some(k) = r0 {
+                if k.as_bytes() != &k.to_bytes()[..] {
+                    return Some("OK inconsistent".to_string());
+                }
+            }
+            let e = || "err".to_string();
+            Some(format!(
+                "OK {} {} {} {} {} {} {}",
+                r0.map_or_else(e, |k| show_hex(&k.to_bytes())),
+                r0.map_or_else(e, |k| format!("{}", k)),
+                r0.map_or_else(e, |k| show_hex(&serialize(&k))),
+                r1.map_or_else(e, |k| show_hex(&k.to_bytes())),
+                r2.map_or_else(e, |k| show_hex(&k.to_bytes())),
+                r0.map_or_else(e, |k| k.to_string()),
+                r0.map_or_else(e, |k| format!("{:?}", k))
+            ))
+        }
+        ("pk_hash", [h]) => {
+            let k = pk!(h);
+            Some(format!("OK {}", show_hex(&Hashable::hash(&k).to_bytes())))
+        }
+        ("viewpair", [v, s]) => {
+            let (v, s) = (sk!(v), sk!(s));
+            let kp = KeyPair { view: v, spend: s };
+            let by_ref = ViewPair::from(&kp);
+            let by_val = ViewPair::from(kp);
+            Some(format!(
+                "OK {} {} {} {} {}",
+                show_hex(&by_val.view.to_bytes()),
+                show_hex(by_val.spend.as_bytes()),
+                show_hex(&by_ref.view.to_bytes()),
+                show_hex(by_ref.spend.as_bytes()),
+                show_hex(PublicKey::from_private_key(&s).as_bytes())
+            ))
         }
         ("pk_str", [h]) => {
             let s = String::from_utf8(unhex(h)?).ok()?;
